@@ -36,6 +36,8 @@ func (p predSpec) String() string {
 		return fmt.Sprintf("edges<=%d", p.K)
 	case "cokfree":
 		return fmt.Sprintf("independence<%d", p.K)
+	case "comaxdeg":
+		return fmt.Sprintf("non-neighbours<=%d", p.K)
 	case "hfree":
 		return fmt.Sprintf("induced-%v-free", p.H)
 	case "and", "or":
@@ -59,6 +61,13 @@ func (p predSpec) holds(g *oracle.G) bool {
 		return oracle.CliqueNumber(g) < p.K
 	case "maxedges":
 		return g.M() <= p.K
+	case "comaxdeg": // every vertex has at most K non-neighbours (the complement has maximum degree <= K)
+		for _, d := range g.Degs() {
+			if g.N-1-d > p.K {
+				return false
+			}
+		}
+		return true
 	case "cokfree": // no independent set of size K: dense graphs, parents of high minimum degree
 		non := make([]uint64, g.N) // non-neighbours with a larger index
 		for i := 0; i < g.N; i++ {
@@ -154,13 +163,13 @@ func (p predSpec) holds(g *oracle.G) bool {
 }
 
 func genPredSpec(t *rapid.T, depth int) predSpec {
-	kinds := []string{"none", "maxdeg", "kfree", "maxedges", "hfree", "forest", "bipartite", "cokfree"}
+	kinds := []string{"none", "maxdeg", "kfree", "maxedges", "hfree", "forest", "bipartite", "cokfree", "comaxdeg"}
 	if depth == 0 {
 		kinds = append(kinds, "and", "or")
 	}
 	p := predSpec{Kind: rapid.SampledFrom(kinds).Draw(t, "pred")}
 	switch p.Kind {
-	case "maxdeg":
+	case "maxdeg", "comaxdeg":
 		p.K = rapid.IntRange(0, 4).Draw(t, "d")
 	case "kfree", "cokfree":
 		p.K = rapid.IntRange(2, 5).Draw(t, "r")
@@ -251,7 +260,7 @@ func classesSatisfying(n int, p predSpec) []*oracle.G {
 }
 
 // strongPreds prune hard enough for searches on 9..11 vertices to stay small.
-var strongPreds = []predSpec{{Kind: "forest"}, {Kind: "maxdeg", K: 2}, {Kind: "maxdeg", K: 3},
+var strongPreds = []predSpec{{Kind: "forest"}, {Kind: "maxdeg", K: 2}, {Kind: "comaxdeg", K: 3}, {Kind: "maxdeg", K: 3}, {Kind: "comaxdeg", K: 2},
 	{Kind: "and", Sub: []predSpec{{Kind: "kfree", K: 3}, {Kind: "maxdeg", K: 3}}},
 	{Kind: "and", Sub: []predSpec{{Kind: "bipartite"}, {Kind: "maxdeg", K: 3}}}}
 
@@ -316,7 +325,7 @@ func genSearchCfg(t *rapid.T, maxN int) searchCfg {
 	}
 	if rapid.IntRange(0, 5).Draw(t, "bigpruned") == 0 {
 		// beyond the sizes where all classes can be listed: strong hereditary predicates on 9..10 (11) vertices
-		c.Pred = strongPreds[rapid.IntRange(0, sz(2, len(strongPreds)-1)).Draw(t, "strong")]
+		c.Pred = strongPreds[rapid.IntRange(0, sz(3, len(strongPreds)-1)).Draw(t, "strong")]
 		c.N = rapid.IntRange(9, sz(10, 11)).Draw(t, "bign")
 	}
 	return c
@@ -414,7 +423,7 @@ func enumSearchCfgs(yield func(searchCfg) bool) {
 	// larger n under strong pruning (oracle: extension of the predicate-satisfying classes)
 	for n := 9; n <= sz(10, 11); n++ {
 		for pi, p := range strongPreds {
-			if !Thorough && pi > 2 {
+			if !Thorough && pi > 3 {
 				continue
 			}
 			for _, m := range []int{1, 3} {
@@ -572,6 +581,7 @@ func checkSaveLoadCase(c saveLoadCase, rec *Rec) error {
 		return nil
 	}
 	midSave := false
+	saveBufs := map[int]*bytes.Buffer{}
 	for step, op := range c.Script {
 		switch op.Kind {
 		case "next":
@@ -580,8 +590,14 @@ func checkSaveLoadCase(c saveLoadCase, rec *Rec) error {
 			}
 		case "save":
 			l := iters[op.I]
-			var buf bytes.Buffer
-			if p := try(func() { l.it.Save(&buf) }); p != nil {
+			// successive saves of one iterator go through the same (reset) buffer in every other case, as a caller
+			// that keeps overwriting one checkpoint would do
+			if saveBufs[op.I] == nil || len(c.Script)%2 == 0 {
+				saveBufs[op.I] = new(bytes.Buffer)
+			}
+			buf := saveBufs[op.I]
+			buf.Reset()
+			if p := try(func() { l.it.Save(buf) }); p != nil {
 				return fmt.Errorf("%s: Save of iterator %d at position %d panicked: %v", desc, op.I, l.pos, p)
 			}
 			blobs = append(blobs, blob{append([]byte{}, buf.Bytes()...), l.pos, l.done})
@@ -763,14 +779,14 @@ func sortedKeysOf(m map[string]bool) []string {
 
 func init() {
 	RegisterRapid("C03_search_generated",
-		"rapid: (n <= 7 quick / 8 thorough - and in one case in six n = 9..10 (11) under a strong predicate (forest, max degree <= 2/3, triangle-free or bipartite with max degree <= 3), where the oracle classes come from the oracle's own extension of the predicate-satisfying classes -, split modulus m in {1,2,3,4,5,7,64}, hereditary predicate from a DSL: none, max degree <= d, K_r-free, <= c edges, induced-H-free for a generated H on 2..4 vertices, forest, bipartite, and/or of two; placed as prune, as preprune, or split over both). All m shards are run to exhaustion. Oracle: the oracle's own class list for n filtered by the predicate, keyed by the oracle canonical form. Every yielded value must be a well-formed DenseGraph on n vertices; the union over shards must contain no two isomorphic graphs, nothing that fails the predicate, and every class that satisfies it. The callbacks also check every graph they are shown. Non-trivial: n >= 4 and (m >= 2 or a real predicate).",
+		"rapid: (n <= 7 quick / 8 thorough - and in one case in six n = 9..10 (11) under a strong predicate (forest, max degree <= 2/3, at most 2/3 non-neighbours per vertex - a dense class -, triangle-free or bipartite with max degree <= 3), where the oracle classes come from the oracle's own extension of the predicate-satisfying classes -, split modulus m in {1,2,3,4,5,7,64}, hereditary predicate from a DSL: none, max degree <= d, K_r-free, <= c edges, induced-H-free for a generated H on 2..4 vertices, forest, bipartite, and/or of two; placed as prune, as preprune, or split over both). All m shards are run to exhaustion. Oracle: the oracle's own class list for n filtered by the predicate, keyed by the oracle canonical form. Every yielded value must be a well-formed DenseGraph on n vertices; the union over shards must contain no two isomorphic graphs, nothing that fails the predicate, and every class that satisfies it. The callbacks also check every graph they are shown. Non-trivial: n >= 4 and (m >= 2 or a real predicate).",
 		Budget{Checks: 400, Shards: 1}, Budget{Checks: 1200, Shards: 16},
 		func(t *rapid.T) searchCfg { return genSearchCfg(t, sz(7, 8)) }, checkSearchCfg)
 	RegisterEnum("C03_search_configurations",
 		"enumeration: every (n <= 6 quick / 8 thorough) x (m <= 3 / 4) x {none, maxdeg<=2, maxdeg<=3, triangle-free, K4-free, <=6 edges, forest, bipartite, triangle-free and maxdeg<=3, forest or <=4 edges} x {prune, preprune, split}; plus n = 9..10 (thorough 11) under the strong predicates with m in {1,3}; thorough adds All(9) and triangle-free n=9 m=3. Same checks as C03_search_generated.",
 		true, Budget{Shards: 1}, Budget{Shards: 8}, enumSearchCfgs, checkSearchCfg)
 	RegisterRapid("C04_save_load_scripts",
-		"rapid: a search configuration (n <= 6/7, m <= 3, shard a, DSL predicate; about one case in twelve (thorough: six) n = 9..10 under a strong predicate incl. bipartite, triangle-free with max degree <= 4 and independence number <= 2, i.e. thousands of graphs, path counters above 255) and a script over up to 5 live iterators: Next x k (k up to 2000, so exhaustion is reached), Save(iterator) -> blob, Load(blob) -> new iterator, including chains save-load-advance-save. Oracle: the uninterrupted output sequence (graph, M, Degrees as text). Every Next of every iterator must return the reference graph at that iterator's position; at the end all iterators are drained round-robin to exactly the reference suffix, exhausted iterators stay exhausted, and every blob is loaded once more and must still resume correctly (so a blob shares nothing with live iterators). Non-trivial: a save strictly inside the run with n >= 4.",
+		"rapid: a search configuration (n <= 6/7, m <= 3, shard a, DSL predicate; about one case in twelve (thorough: six) n = 9..10 under a strong predicate incl. bipartite, triangle-free with max degree <= 4 and independence number <= 2, i.e. thousands of graphs, path counters above 255) and a script over up to 5 live iterators: Next x k (k up to 2000, so exhaustion is reached), Save(iterator) -> blob (in half of the cases successive saves of an iterator reuse one reset buffer), Load(blob) -> new iterator, including chains save-load-advance-save. Oracle: the uninterrupted output sequence (graph, M, Degrees as text). Every Next of every iterator must return the reference graph at that iterator's position; at the end all iterators are drained round-robin to exactly the reference suffix, exhausted iterators stay exhausted, and every blob is loaded once more and must still resume correctly (so a blob shares nothing with live iterators). Non-trivial: a save strictly inside the run with n >= 4.",
 		Budget{Checks: 600, Shards: 1}, Budget{Checks: 1500, Shards: 16}, genSaveLoadCase, checkSaveLoadCase)
 	RegisterEnum("C04_save_at_every_position",
 		"enumeration: for every (n <= 5 quick / 6 thorough, m <= 3, a < m, predicate none / triangle-free) Save is called at EVERY position k = 0..len(output)+1 (before the first Next, after each graph, after exhaustion); the loaded iterator must yield exactly the remaining graphs and the original must continue undisturbed. Thorough adds every position of the bipartite search and of the search for graphs without an independent set of size 3 on 10 vertices (5479 and 12172 graphs; the latter has 9-vertex parents of minimum degree >= 4, hence path counters above 255). Complete over save positions for those configurations.",
